@@ -28,7 +28,8 @@ RULE = ('case = (program unit, history). Units: (a) subroutine/function/module t
         'node in it; distinct by hash of the JSON case')
 ASSUMPTIONS = [
     'structural dump = lokiverif/irdump.py (all dataclass fields except source bookkeeping); source objects/validity are not compared',
-    'node identity = id() of every IR node (incl. attached pragmas) per position of an own pre-order walk over dataclass fields',
+    'node identity = id() of every IR node (incl. attached pragmas, also those parked in non-field pragma_post attributes of declarations/calls) per position of an own pre-order walk over dataclass fields',
+    'invariant at every attach/detach step: the set of Pragma objects in the unit (standalone, attached, held by regions) is unchanged',
     'node types given to attach_pragmas are the documented ones (Loop, WhileLoop, CallStatement, VariableDeclaration, ProcedureDeclaration)',
     'an inner context of the same mechanism as an active outer one detaches the outer attachments on exit (documented); '
     'there only the final, fully detached state is compared',
@@ -295,6 +296,11 @@ def walk(obj, path, out, hidden=True):
         out.append((path, type(obj).__name__, obj))
         name = type(obj).__name__
         fields = obj._traversable if not hidden else [k for k in obj.__dataclass_fields__ if k not in SKIP]
+        if hidden:
+            # PragmaAttacher also parks pragmas in `pragma_post` (end of a body) of nodes that have no such
+            # dataclass field (declarations, calls): they live in __dict__ only and come back on detach
+            fields = list(fields) + [k for k in ('pragma', 'pragma_post')
+                                     if k not in obj.__dataclass_fields__ and obj.__dict__.get(k)]
         for k in fields:
             v = obj.__dict__.get(k)
             if isinstance(v, (Node, ProgramUnit, tuple, list)):
@@ -518,6 +524,7 @@ class Runner:
         self.version = 0
         self._snap = None
         self._features = None
+        self._pragmas = None
 
     # ---- reporting -----------------------------------------------------------
     def features(self):
@@ -575,6 +582,27 @@ class Runner:
             sig = f'C16:{aspect}:{op["op"] if op else "flat"}' + (f':{where}' if where else '')
             self.fail(sig, f'{when}: {detail}')
         return after
+
+    def pragma_ids(self):
+        from loki.ir import nodes as ir
+        return {id(o): o for _, _, o in walk(self.unit, '', []) if isinstance(o, ir.Pragma)}
+
+    def check_conserved(self, op, stage):
+        """
+        invariant over the history: attaching / detaching moves Pragma objects between tuples and node
+        attachments, it never drops or invents one
+        """
+        now = self.pragma_ids()
+        if self._pragmas is not None and set(now) != set(self._pragmas):
+            lost = [self._pragmas[i] for i in self._pragmas if i not in now]
+            again = any(o is not op and o['op'] == 'pragmas' and op['op'] == 'pragmas'
+                        and set(o['types']) & set(op['types']) for o in self.active)
+            what = 'lost' if lost else 'appeared'
+            sig = f'C16:pragma-objects-{what}:{stage}:{op["op"]}' + (':same-node-types-already-attached' if again else '')
+            shown = ', '.join(f'!${x.keyword} {x.content}' for x in lost[:3])
+            self.fail(sig, f'{stage} of {_opname(op)}: {len(self._pragmas)} -> {len(now)} Pragma objects in the unit'
+                      + (f'; gone: {shown}' if lost else ''))
+        self._pragmas = now
 
     def check_dfa_gone(self, op, hidden, when):
         """stale dataflow info does not change the structure: report per node class and carry on"""
@@ -747,6 +775,7 @@ class Runner:
                 raise                      # our own code (or an unexpected query failure): harness error
             self.loki_raised(stage[0], op, e)
         # the context is closed (normally or by the planned exception)
+        self.check_conserved(op, 'detach')
         if before is not None:
             self.check_same(before, op, f'after leaving {name}' + (' by exception' if pending else ''))
         if op['op'] == 'dfa' and not any(o['op'] == 'dfa' for o in self.active):
@@ -760,6 +789,7 @@ class Runner:
 
     def inside(self, op, depth, stats0):
         self.measure(op, stats0)
+        self.check_conserved(op, 'attach')
         self.active.append(op)
         try:
             self.run_ops(op['body'], depth + 1)
@@ -785,6 +815,7 @@ class Runner:
                 except Exception as e:  # noqa
                     self.loki_raised('attach', op, e)
                 self.measure(op, stats0)
+                self.check_conserved(op, 'attach')
                 order.append(n)
                 self.active.append(op)
                 self.classes.add(f'op:{op["op"]}:flat')
@@ -800,6 +831,7 @@ class Runner:
                     self.fn_detach(op)
                 except Exception as e:  # noqa
                     self.loki_raised('detach', op, e)
+                self.check_conserved(op, 'detach')
                 if op['op'] == 'dfa' and not any(o['op'] == 'dfa' for o in self.active):
                     self.check_dfa_gone(op, hidden=False, when=f'after detach of step {n}')
                 if not order:
@@ -811,6 +843,7 @@ class Runner:
         hist = self.case['hist']
         place = placement_classes(self.unit)
         self.features()
+        self._pragmas = self.pragma_ids()
         s0 = attachment_stats(self.unit)
         if s0[1] or s0[2] or s0[3]:
             if self.case['dom'] != 'src':
